@@ -1,6 +1,9 @@
 #!/bin/bash
-# seedtest.sh <patch.diff> <Cxx> [tier]: apply a seeded change to /repo, run the check, undo the change
+# seedtest.sh <patch.diff> <Cxx> [tier]: apply a seeded change to /repo, run the check, undo the change.
+# The evidence file is saved and restored: committed evidence must come from the unchanged tree only.
+EV=/verif/evidence/$2.json; [ -f $EV ] && cp $EV /tmp/.ev_$2.bak
 cd /repo && git apply "$1" || exit 2
 python3 /verif/bin/vcheck "$2" --tier "${3:-quick}" 2>&1 | grep -E "VIOLATION|MACHINERY|KNOWN|tier=|FAILED" ; RC=${PIPESTATUS[0]}
 git -C /repo checkout -- .
+[ -f /tmp/.ev_$2.bak ] && mv /tmp/.ev_$2.bak $EV
 echo "exit=$RC"
